@@ -25,6 +25,8 @@ def gen_config(rnd, S, opts=None):
                "dividend_reinvestment": rnd.random() < opts.get("p_reinvest", 0.25),
                "cash_return_by_stock_delisted": rnd.random() < 0.85,
                "futures_settlement_price_type": rnd.choice(["close", "settlement"])}
+    if opts.get("frac_fut"):
+        S["_frac_fut"] = True            # futures requests may carry fractional lot counts (truncated toward zero by the API)
     if opts.get("p_auto_switch") and rnd.random() < opts["p_auto_switch"]:
         acc_mod["auto_switch_order_value"] = True
     accounts = {}
@@ -476,11 +478,11 @@ def run_trading(rnd, S, cfgk, intensity=1.0, script=None, analyser=False, ids=No
                     if k < 0.8:
                         fn = srnd.choice(["buy_open", "sell_open", "buy_close", "sell_close"])
                         kw = {"close_today": True} if fn in ("buy_close", "sell_close") and srnd.random() < 0.3 else {}
-                        q = srnd.choice([1, 2, 3, 5, 10])
+                        q = srnd.choice([1, 2, 3, 5, 10] + ([0.5, 0.3, 2.5, 1.9] if S.get("_frac_fut") else []))
                         call.update(api=fn, args=(oid, q, style.get_limit_price() if style else None, kw.get("close_today", False)))
                         res = getattr(api, fn)(oid, q, price_or_style=style, **kw)
                     elif k < 0.9:
-                        q = srnd.choice([1, -1, 3, -3, 6, -6])
+                        q = srnd.choice([1, -1, 3, -3, 6, -6] + ([0.5, -0.4, 2.5, -1.9] if S.get("_frac_fut") else []))
                         call.update(api="order", args=(oid, q, style.get_limit_price() if style else None))
                         res = api.order(oid, q, price_or_style=style)
                     else:
